@@ -122,7 +122,7 @@ func (o *Operation) Filename() (filename string) {
 		filename,
 		getStepNumber(o.Type),
 		getShortOperationDescription(o.Type),
-		shortID(o.ID),
+		fileNamePart(shortID(o.ID)),
 	)
 }
 
